@@ -22,7 +22,7 @@ func init() {
 	h.Register(&h.Prop{
 		ID: "C09",
 		Rule: "cases: rt = deal a polynomial, pick shares by a selector list (subset/permutation/multiset with nil, nil-value and out-of-range entries), " +
-			"RecoverSecret+RecoverPriPoly+RecoverCommit+Check on the picks; EVERY subset of every 1<=t<=n<=8 on both groups (exhaustive), sampled permutations and n up to 64; " +
+			"RecoverSecret+RecoverPriPoly+RecoverCommit (each called twice on the same objects, marshalled inputs compared before/after) +Check on the picks; EVERY subset of every 1<=t<=n<=8 on both groups (exhaustive space of the flag), sampled permutations with repeated indices and n up to 64; " +
 			"primitive ops eval/shares/priadd/priequal/primul/commit/pubeval/pubadd/pubequal/check/recsecret/recpoly/reccommit on equal and different lengths, cross-group, " +
 			"secrets 0,1,q-1,random; non-trivial = every case except a plain in-order full-set recovery; distinct = distinct case line",
 		Gen:        gen,
@@ -374,6 +374,7 @@ func usable(sh []shr, n int) (idx []int64, val []*big.Int) {
 	}
 	return
 }
+
 // one share per index (poly.go since 2d8b40a): the first usable entry of every index, in slice order
 func dedupFirst(idx []int64, val []*big.Int) (didx []int64, dval []*big.Int) {
 	seen := map[int64]bool{}
@@ -433,6 +434,47 @@ func pubShares(g *grp, sh []shr) []*share.PubShare {
 	return r
 }
 
+// snapshots of the caller-owned inputs (review B #6: a recovery that overwrites the shares it was
+// handed returns the same value and is invisible unless the inputs are looked at again)
+func snapPri(g *grp, sh []*share.PriShare) string {
+	var b strings.Builder
+	for _, s := range sh {
+		switch {
+		case s == nil:
+			b.WriteString("nil;")
+		case s.V == nil:
+			fmt.Fprintf(&b, "%d:nil;", s.I)
+		default:
+			fmt.Fprintf(&b, "%d:%s;", s.I, g.num(s.V))
+		}
+	}
+	return b.String()
+}
+func snapPub(sh []*share.PubShare) string {
+	var b strings.Builder
+	for _, s := range sh {
+		switch {
+		case s == nil:
+			b.WriteString("nil;")
+		case s.V == nil:
+			fmt.Fprintf(&b, "%d:nil;", s.I)
+		default:
+			m, _ := s.V.MarshalBinary()
+			fmt.Fprintf(&b, "%d:%x;", s.I, m)
+		}
+	}
+	return b.String()
+}
+
+// twice runs a recovery two times on the SAME objects: the second answer must be the first
+func twice(name string, f func() string) (out, oracle string) {
+	out = catch(f)
+	if again := catch(f); again != out {
+		oracle = fmt.Sprintf("second-call-differs: %s answered %q, then %q on the same objects", name, out, again)
+	}
+	return
+}
+
 // ---------------------------------------------------------------------------------------------
 // the three recoveries with their verdicts: one share per index (first occurrence), fewer than t
 // distinct usable indices = error, never a panic
@@ -443,13 +485,23 @@ func doRecSecret(g *grp, sh []shr, t, n int) (impl, oracle string) {
 	if t > 0 && len(first) > t {
 		first, fval = idx[:t], val[:t]
 	}
-	impl = catch(func() string {
-		s, err := share.RecoverSecret(g.g, priShares(g, sh), t, n)
+	in := priShares(g, sh)
+	before := snapPri(g, in)
+	impl, mut := twice("RecoverSecret", func() string {
+		s, err := share.RecoverSecret(g.g, in, t, n)
 		if err != nil {
 			return "err " + errKind(err)
 		}
 		return "ok " + g.num(s).String()
 	})
+	if mut == "" && snapPri(g, in) != before {
+		mut = "input-mutated: RecoverSecret changed the caller's shares"
+	}
+	defer func() {
+		if oracle == "" {
+			oracle = mut
+		}
+	}()
 	switch {
 	case strings.HasPrefix(impl, "panic"):
 		oracle = fmt.Sprintf("recsecret-panics: %q", impl)
@@ -472,8 +524,10 @@ func doRecPoly(g *grp, sh []shr, t, n int) (impl, oracle string) {
 	if t > 0 && len(first) > t {
 		first, fval = idx[:t], val[:t]
 	}
-	impl = catch(func() string {
-		p, err := share.RecoverPriPoly(g.g, priShares(g, sh), t, n)
+	in := priShares(g, sh)
+	before := snapPri(g, in)
+	impl, mut := twice("RecoverPriPoly", func() string {
+		p, err := share.RecoverPriPoly(g.g, in, t, n)
 		if err != nil {
 			return "err " + errKind(err)
 		}
@@ -482,6 +536,14 @@ func doRecPoly(g *grp, sh []shr, t, n int) (impl, oracle string) {
 		}
 		return "ok " + csvBig(g.coeffsOf(p))
 	})
+	if mut == "" && snapPri(g, in) != before {
+		mut = "input-mutated: RecoverPriPoly changed the caller's shares"
+	}
+	defer func() {
+		if oracle == "" {
+			oracle = mut
+		}
+	}()
 	switch {
 	case strings.HasPrefix(impl, "panic"):
 		oracle = fmt.Sprintf("recpoly-panics: %q", impl)
@@ -501,13 +563,23 @@ func doRecPoly(g *grp, sh []shr, t, n int) (impl, oracle string) {
 func doRecCommit(g *grp, sh []shr, t, n int) (impl, oracle string) {
 	idx, val := dedupFirst(usable(sh, n))
 	cand, _ := refLagrange0(xsOf(idx, g.q), val, g.q)
-	impl = catch(func() string {
-		p, err := share.RecoverCommit(g.g, pubShares(g, sh), t, n)
+	in := pubShares(g, sh)
+	before := snapPub(in)
+	impl, mut := twice("RecoverCommit", func() string {
+		p, err := share.RecoverCommit(g.g, in, t, n)
 		if err != nil {
 			return "err " + errKind(err)
 		}
 		return "ok " + g.dlog(p, cand)
 	})
+	if mut == "" && snapPub(in) != before {
+		mut = "input-mutated: RecoverCommit changed the caller's public shares"
+	}
+	defer func() {
+		if oracle == "" {
+			oracle = mut
+		}
+	}()
 	switch {
 	case strings.HasPrefix(impl, "panic"):
 		oracle = fmt.Sprintf("reccommit-panics: %q", impl)
@@ -541,7 +613,15 @@ func exec(line string) (res h.Result) {
 		p, i := parsePoly(w[1]), int64(h.Atoi(w[2]))
 		v := p.g.num(p.pri().Eval(int(i)).V)
 		res.Impl = "ok " + v.String()
-		if want := refEval(p.c, xOfIdx(i, p.g.q), p.g.q); want.Cmp(v) != 0 {
+		want := refEval(p.c, xOfIdx(i, p.g.q), p.g.q)
+		switch {
+		case i < 0:
+			// outside the API (Shares, xScalar, RecoverCommit and tbls only use indices >= 0; index -1 IS
+			// the point zero – Props/C09 eval_at_minus_one_is_secret): model comparison only, no verdict
+			res.Class = "eval-negative-index"
+		case want.Cmp(v) != 0 && len(p.c) > 0 && v.Cmp(p.c[0]) == 0:
+			res.Oracle = fmt.Sprintf("share-evaluated-at-zero: Eval(%d) returned f(0)", i)
+		case want.Cmp(v) != 0:
 			res.Oracle = fmt.Sprintf("eval-wrong: want %s got %s", want, v)
 		}
 	case "shares":
@@ -554,8 +634,9 @@ func exec(line string) (res h.Result) {
 				res.Oracle = fmt.Sprintf("shares-index: entry %d has index %d", k, s.I)
 			}
 			x := xOfIdx(int64(k), p.g.q)
-			if x.Sign() == 0 {
-				res.Oracle = fmt.Sprintf("share-evaluated-at-zero: index %d", k)
+			// the library's value is the polynomial's value at ZERO (the secret) although f(k+1) is not
+			if want := refEval(p.c, x, p.g.q); len(p.c) > 0 && v.Cmp(p.c[0]) == 0 && want.Cmp(v) != 0 {
+				res.Oracle = fmt.Sprintf("share-evaluated-at-zero: index %d carries f(0)", k)
 			}
 			if want := refEval(p.c, x, p.g.q); want.Cmp(v) != 0 && res.Oracle == "" {
 				res.Oracle = fmt.Sprintf("shares-wrong: index %d want %s got %s", k, want, v)
@@ -833,14 +914,17 @@ func execRT(w []string) (res h.Result) {
 	idx, _ := dedupFirst(allIdx, allVal) // the DISTINCT usable indices: what the property counts
 	secret := p.c[0]
 
-	sec := catch(func() string {
+	// every recovery runs TWICE on the same caller-owned objects; the marshalled inputs are compared
+	// before and after (a recovery must not write into the shares it is handed)
+	priBefore, pubBefore := snapPri(g, chosen), snapPub(pubs)
+	sec, m1 := twice("RecoverSecret", func() string {
 		s, err := share.RecoverSecret(g.g, chosen, t, n)
 		if err != nil {
 			return "err " + errKind(err)
 		}
 		return "ok " + g.num(s).String()
 	})
-	pol := catch(func() string {
+	pol, m2 := twice("RecoverPriPoly", func() string {
 		q, err := share.RecoverPriPoly(g.g, chosen, t, n)
 		if err != nil {
 			return "err " + errKind(err)
@@ -849,13 +933,24 @@ func execRT(w []string) (res h.Result) {
 	})
 	// candidate dlog for canonicalisation: the dealt secret times beta
 	cand := modq(new(big.Int).Mul(secret, beta), g.q)
-	com := catch(func() string {
+	com, m3 := twice("RecoverCommit", func() string {
 		c, err := share.RecoverCommit(g.g, pubs, t, n)
 		if err != nil {
 			return "err " + errKind(err)
 		}
 		return "ok " + g.dlog(c, cand)
 	})
+	for _, m := range []string{m1, m2, m3} {
+		if m != "" {
+			orc = append(orc, "rt-"+m)
+		}
+	}
+	if snapPri(g, chosen) != priBefore {
+		orc = append(orc, "rt-input-mutated: the caller's private shares changed during the recoveries")
+	}
+	if snapPub(pubs) != pubBefore {
+		orc = append(orc, "rt-input-mutated: the caller's public shares changed during RecoverCommit")
+	}
 	if chk == "" {
 		chk = "-"
 	}
@@ -1028,10 +1123,15 @@ func gen(tier string, rng *h.Rng, emit func(string)) {
 				sel = append(sel, fmt.Sprintf("x%d", -1-rng.Intn(3)))
 			}
 		}
-		if k%11 == 0 && take > 0 { // a repeated index somewhere (outside the precondition; model comparison only)
-			sel = append(sel, strconv.Itoa(perm[rng.Intn(take)]))
-			j := rng.Intn(len(sel))
-			sel[j], sel[len(sel)-1] = sel[len(sel)-1], sel[j]
+		if k%3 == 0 && take > 0 { // repeated indices anywhere (front, middle, back): one share per index counts
+			for r := 1 + rng.Intn(3); r > 0; r-- {
+				sel = append(sel, strconv.Itoa(perm[rng.Intn(take)]))
+				j := rng.Intn(len(sel))
+				if r == 1 && rng.Bool() {
+					j = rng.Intn(1 + len(sel)/4) // among the first entries
+				}
+				sel[j], sel[len(sel)-1] = sel[len(sel)-1], sel[j]
+			}
 		}
 		s := "-"
 		if len(sel) > 0 {
@@ -1129,7 +1229,7 @@ func gen(tier string, rng *h.Rng, emit func(string)) {
 			case 3:
 				sh = append(sh, shr{i: int64(-1 - rng.Intn(2)), v: rng.Big(g.q)})
 			case 4:
-				if k%5 == 0 { // repeated index: outside the precondition
+				if k%2 == 0 { // repeated index (possibly with another value: the first occurrence counts)
 					sh = append(sh, shr{i: int64(rng.Intn(n)), v: rng.Big(g.q)})
 					break
 				}
